@@ -111,6 +111,10 @@ DIRECTED = [
     ["append", "delete_files", "append", "delete_snapshot_mid", "collect", "append", "collect"],
     ["append_multi", "delete_files", "append", "delete_files", "append", "delete_snapshot_mid", "delete_snapshot_mid", "collect"],
     ["append", "tx_replace", "delete_files", "append", "delete_snapshot_parent", "collect", "delete_snapshot_parent", "collect"],
+    # failure sequences on ONE reused Transaction object (a commit whose pointer write landed although it reported failure,
+    # then further failed commits on the same object), then a collection
+    ["append_multi", "failed_commit", "failed_commit", "failed_commit", "append", "failed_commit", "failed_commit", "failed_commit", "collect"],
+    ["append", "failed_commit", "failed_commit", "tx_replace", "failed_commit", "failed_commit", "failed_commit", "collect", "failed_commit"],
 ]
 
 # weights of the random generator (op name -> weight); "tx_mixed" = ONE transaction with any combination of
@@ -186,7 +190,7 @@ def run_history(ctx, seed: int, length: int, script: Optional[List[str]] = None,
     stats = {"steps": 0, "appends": 0, "deletes": 0, "expires": 0, "delete_snapshots": 0, "collects": 0, "failed_commits": 0,
              "equal_timestamp_pairs": 0, "mixed_transactions": 0, "delete_and_append_transactions": 0,
              "intermediate_snapshot_deletions": 0, "collections_after_a_step": 0, "files_collected": 0,
-             "retained_snapshot_rereads": 0}
+             "retained_snapshot_rereads": 0, "failed_commits_whose_pointer_write_landed": 0}
     try:
         t = datashard.create_table(root, Schema(schema_id=1, fields=FIELDS))
         if opts.get("retention"):
@@ -195,6 +199,15 @@ def run_history(ctx, seed: int, length: int, script: Optional[List[str]] = None,
             t.metadata_manager.commit(t.metadata_manager.refresh(), new)
         recorded: Dict[int, Tuple[Tuple[str, ...], Tuple[int, ...]]] = {}
         nextv = [0]
+        shared: List[Any] = []
+
+        def new_tx() -> Any:
+            """A fresh Transaction, or -- opts reuse_tx -- the ONE Transaction object this history begins again and again."""
+            if not opts.get("reuse_tx"):
+                return t.new_transaction()
+            if not shared:
+                shared.append(t.new_transaction())
+            return shared[0]
 
         def retained_middle(state: Dict[str, Any], cur: Any) -> List[int]:
             order = [x for x in state["log_order"] if x in state["snapshots"]]
@@ -286,7 +299,8 @@ def run_history(ctx, seed: int, length: int, script: Optional[List[str]] = None,
 
         for step in range(len(script) if script is not None else length):
             forced = script[step] if script is not None else None
-            pick = _pick(rng, WEIGHTS)
+            # (on one reused Transaction object, failure SEQUENCES are the point: failed commits are three times as frequent)
+            pick = _pick(rng, [(n, w * 3 if n == "failed_commit" else w) for n, w in WEIGHTS] if opts.get("reuse_tx") else WEIGHTS)
             if rng.random() < 0.6:
                 clock.ms += rng.choice([0, 0, 1, 5, 1000])       # equal timestamps are frequent on purpose
             if backwards and rng.random() < 0.35:
@@ -305,13 +319,18 @@ def run_history(ctx, seed: int, length: int, script: Optional[List[str]] = None,
                     if op == "append_multi" or (forced is None and rng.random() < 0.3):
                         # ONE transaction, several data files: they share a manifest, so a later partial delete rewrites it
                         op = "append_multi"
-                        with t.new_transaction() as tx:
+                        with new_tx() as tx:
                             for k in range(rng.choice([2, 3])):
                                 tx.append_data(records=[{"x": nextv[0] * 10 + k}])
                             tx.commit()
                         stats["multi_file_appends"] = stats.get("multi_file_appends", 0) + 1
                     else:
-                        t.append_records([{"x": nextv[0] * 10}, {"x": nextv[0] * 10 + 1}])
+                        if opts.get("reuse_tx"):
+                            with new_tx() as tx:
+                                tx.append_data(records=[{"x": nextv[0] * 10}, {"x": nextv[0] * 10 + 1}])
+                                tx.commit()
+                        else:
+                            t.append_records([{"x": nextv[0] * 10}, {"x": nextv[0] * 10 + 1}])
                     stats["appends"] += 1
                 elif op in ("tx_mixed", "tx_replace"):
                     # ONE transaction combining file deletions, appends and possibly an expiry: the snapshot it commits is
@@ -328,7 +347,7 @@ def run_history(ctx, seed: int, length: int, script: Optional[List[str]] = None,
                     acts = [("del", v) for v in victims] + [("app", k) for k in range(n_app)] + ([("exp", 0)] if with_expire else [])
                     rng.shuffle(acts)
                     tss = sorted(s["ts"] for s in state["snapshots"].values())
-                    with t.new_transaction() as tx:
+                    with new_tx() as tx:
                         for kind, arg in acts:
                             if kind == "del":
                                 tx.delete_files([arg if rng.random() < 0.5 else "/" + arg])
@@ -341,7 +360,7 @@ def run_history(ctx, seed: int, length: int, script: Optional[List[str]] = None,
                     stats["delete_and_append_transactions"] += 1 if (n_del and n_app) else 0
                 elif op == "delete_files":
                     victim = rng.choice(cur_files)
-                    with t.new_transaction() as tx:
+                    with new_tx() as tx:
                         tx.delete_files([victim if rng.random() < 0.5 else "/" + victim])
                         tx.commit()
                     stats["deletes"] += 1
@@ -350,7 +369,7 @@ def run_history(ctx, seed: int, length: int, script: Optional[List[str]] = None,
                     cutoff = rng.choice(tss + [tss[-1] + 1, tss[0] - 1]) if tss else 0
                     if op == "expire_old" and tss:
                         cutoff = tss[-1] + 1
-                    with t.new_transaction() as tx:
+                    with new_tx() as tx:
                         tx.expire_snapshots(cutoff)
                         tx.commit()
                     stats["expires"] += 1
@@ -385,10 +404,26 @@ def run_history(ctx, seed: int, length: int, script: Optional[List[str]] = None,
                     op = "failed_commit"
                     real_write = t.storage.write_file
 
+                    # HOW it fails: cleanly before the pointer write / the write lands but reports an error on a backend whose
+                    # failed writes are not guaranteed invisible (ambiguous commit) / an interrupt right after the pointer flip.
+                    # In the last two the commit IS durable: what it committed is a retained snapshot from then on.
+                    mode = rng.choice(["clean", "clean", "ambiguous", "interrupt"])
+                    from datashard.metadata_manager import AmbiguousCommitError
+
                     def failing(path: str, content: bytes) -> None:
                         if path.endswith(P.HINT):
-                            raise OSError("injected pointer-write failure")
+                            if mode == "clean":
+                                raise OSError("injected pointer-write failure")
+                            real_write(path, content)
+                            if mode == "interrupt":
+                                raise KeyboardInterrupt("injected right after the pointer flip")
+                            raise OSError("injected: the pointer write landed but reported an error")
                         return real_write(path, content)
+                    backend_cls = type(t.storage)
+                    had_own = "atomic_write_failures" in backend_cls.__dict__
+                    saved_prop = backend_cls.__dict__.get("atomic_write_failures")
+                    if mode == "ambiguous":
+                        backend_cls.atomic_write_failures = property(lambda self: False)
                     # WHICH operation's commit fails: an append, a file delete, a mixed transaction, an expiry or a snapshot
                     # deletion -- the failed operation must leave every retained snapshot (the one it tried to remove included) as it was
                     which = rng.choice(["append", "delete_files", "tx_mixed", "expire", "delete_snapshot", "delete_snapshot_cur"])
@@ -396,18 +431,20 @@ def run_history(ctx, seed: int, length: int, script: Optional[List[str]] = None,
                     t.storage.write_file = failing
                     try:
                         if which == "append" or not snaps_now:
-                            t.append_records([{"x": -7}])
+                            with new_tx() as tx:
+                                tx.append_data(records=[{"x": -7}])
+                                tx.commit()
                         elif which == "delete_files" and cur_files:
-                            with t.new_transaction() as tx:
+                            with new_tx() as tx:
                                 tx.delete_files([cur_files[0]])
                                 tx.commit()
                         elif which == "tx_mixed" and cur_files:
-                            with t.new_transaction() as tx:
+                            with new_tx() as tx:
                                 tx.delete_files([rng.choice(cur_files)])
                                 tx.append_data(records=[{"x": -9}])
                                 tx.commit()
                         elif which == "expire":
-                            with t.new_transaction() as tx:
+                            with new_tx() as tx:
                                 tx.expire_snapshots(max(sn["ts"] for sn in state["snapshots"].values()) + 1)
                                 tx.commit()
                         elif which == "delete_snapshot_cur" and cur in state["snapshots"]:
@@ -415,12 +452,18 @@ def run_history(ctx, seed: int, length: int, script: Optional[List[str]] = None,
                         else:
                             t.snapshot_manager.delete_snapshot(snaps_now[0])
                         viol.append(f"{which} with a failing pointer write reported success")
-                    except OSError:
+                    except (OSError, AmbiguousCommitError, KeyboardInterrupt):
                         pass
                     finally:
                         t.storage.write_file = real_write
-                    op = f"failed_commit:{which}"
+                        if mode == "ambiguous":
+                            if had_own:
+                                backend_cls.atomic_write_failures = saved_prop
+                            else:
+                                del backend_cls.atomic_write_failures
+                    op = f"failed_commit:{which}" + ("" if mode == "clean" else "_" + mode)
                     stats["failed_commits"] += 1
+                    stats["failed_commits_whose_pointer_write_landed"] += 0 if mode == "clean" else 1
             except Exception as e:      # noqa: BLE001
                 viol.append(f"step {step} ({op}) raised {type(e).__name__}: {e}"[:300])
                 break
@@ -491,11 +534,12 @@ def make_jobs(ctx) -> List[Dict[str, Any]]:
     jobs: List[Dict[str, Any]] = []
     for di, script in enumerate(DIRECTED):
         for rep in range(1 if quick else 6):
-            jobs.append({"seed": 1000 * di + rep, "script": script, "opts": {"gc_every": rep % 2 == 1}})
+            jobs.append({"seed": 1000 * di + rep, "script": script,
+                         "opts": {"gc_every": rep % 2 == 1, "reuse_tx": script.count("failed_commit") >= 3}})
     for i in range(nh):
         # half of the random histories are followed by a collection after EVERY step; a quarter prune by retention count
         jobs.append({"seed": ctx.rng.randrange(1 << 30), "script": None,
-                     "opts": {"gc_every": i % 2 == 0, "retention": [0, 0, 0, 2, 0, 0, 0, 3][i % 8]}})
+                     "opts": {"gc_every": i % 2 == 0, "retention": [0, 0, 0, 2, 0, 0, 0, 3][i % 8], "reuse_tx": i % 3 == 1}})
     # repointing after deleting the current snapshot, on a clock that steps back: directed
     for rep in range(2 if quick else 10):
         jobs.append({"seed": 7000 + rep, "script": ["append", "append", "append_multi", "delete_snapshot_cur", "append", "delete_snapshot_cur", "collect"], "opts": {}})
@@ -541,6 +585,7 @@ def run(ctx) -> None:
     ctx.stats["histories_with_clock_stepping_back"] = sum(1 for j in jobs if j["backwards"])
     ctx.stats["histories_with_a_collection_after_every_step"] = sum(1 for j in jobs if j["opts"].get("gc_every"))
     ctx.stats["histories_with_retention_count"] = sum(1 for j in jobs if j["opts"].get("retention"))
+    ctx.stats["histories_on_one_reused_transaction_object"] = sum(1 for j in jobs if j["opts"].get("reuse_tx"))
     ctx.stats.update(agg)
     ctx.stats["timestamp_lookups"] = len(all_lookups)
     if all_lookups:
